@@ -2,6 +2,7 @@ package fontscan
 
 import (
 	"hash/maphash"
+	"math"
 
 	"github.com/go-text/typesetting/font"
 	"github.com/go-text/typesetting/language"
@@ -18,8 +19,10 @@ type runeLRUEntry struct {
 type runeLRUKey struct {
 	familiesHash uint64
 	s            language.Script
-	aspect       font.Aspect
-	r            rune
+	style        font.Style
+	// the bits of the weight and the stretch, so that a key is always equal to itself (NaN values)
+	weight, stretch uint32
+	r               rune
 }
 
 // runeLRU is a least-recently-used cache for font faces supporting a given rune.
@@ -54,11 +57,14 @@ func (l *runeLRU) KeyFor(q Query, s language.Script, r rune) runeLRUKey {
 	h.SetSeed(l.seed)
 	for _, s := range q.Families {
 		h.WriteString(s)
+		h.WriteByte(0) // so that {"ab", "c"} and {"a", "bc"} differ
 	}
 	return runeLRUKey{
 		familiesHash: h.Sum64(),
 		s:            s,
-		aspect:       q.Aspect,
+		style:        q.Aspect.Style,
+		weight:       math.Float32bits(float32(q.Aspect.Weight)),
+		stretch:      math.Float32bits(float32(q.Aspect.Stretch)),
 		r:            r,
 	}
 }
@@ -92,10 +98,16 @@ func copyStrSlice(s []string) []string {
 func (l *runeLRU) Put(k runeLRUKey, q Query, v *font.Face) {
 	l.init()
 	val := &runeLRUEntry{key: k, v: v, families: copyStrSlice(q.Families)}
+	if old, ok := l.m[k]; ok { // same hash, other families: the entry is replaced
+		l.remove(old)
+	}
 	l.m[k] = val
 	l.insert(val)
 	for len(l.m) > l.maxSize {
 		oldest := l.tail.next
+		if oldest == l.head { // empty list
+			break
+		}
 		l.remove(oldest)
 		delete(l.m, oldest.key)
 	}
